@@ -137,6 +137,7 @@ def run(ctx, rep):
     rep.section(b2, ctx, rep)
     rep.section(b3, ctx, rep, T)
     rep.section(b6, ctx, rep, T)
+    rep.section(b7, ctx, rep, T)
     # B4: truncating rewrite (shared with C17 W5)
     sub = core.Report('C10', rep.tier)
     c17.run(ctx, sub)
@@ -224,34 +225,111 @@ def python_keyword_table(ctx):
 
 
 def b6(ctx, rep, T):
-    """B6: a leading-digit guard (`if name starts with a digit { \"_\" + name }`) protects the identifier that is printed
-    only if it tests that very string: the tested subject must be the value emitted on the else branch and the value the
-    prefixed branch embeds (a case conversion between test and emission moves a digit to the front or away from it)."""
+    """B6: leading digits.  camelCase / PascalCase conversion drops leading underscores, so a variant such as `_1A` turns into
+    `1a` — not an identifier.  (i) every leading-digit guard (`if name starts with a digit { "_" + name }`), wherever it
+    lives (in a printer or in a name helper), tests the very string it emits: subject == else branch == the string embedded in
+    the prefixed branch; (ii) every *declaration* of a variant identifier (`case x`, `data class X`, `object X`, `case class X`,
+    `case object X`) whose name went through such a conversion is covered by a guard — inline, or through a guarded helper."""
+    STRIPPING = {'to_camel_case', 'to_pascal_case'}
     n = 0
-    for f in [g for _be, (_st, file) in emit.BACKENDS.items() for g in inline.file_views(ctx, file)]:
-        seen = set()
-        for st in f['sites']:
-            for x in vt.walk(st['fmt']):
-                if x.get('k') != 'cond' or 'is_ascii_digit' not in json.dumps(x.get('c'))[:4000]:
-                    continue
-                k = vt.ckey(x)
-                if k in seen:
-                    continue
-                seen.add(k)
-                subj = None
-                for y in vt.walk(vt.unvar(x.get('c'))):
-                    if y.get('k') == 'call' and y.get('f') in ('chars', 'starts_with', 'bytes', 'as_bytes') and y.get('recv') is not None:
-                        subj = y['recv']
-                        break
-                if subj is None:
-                    continue
-                n += 1
-                sk = vt.ckey(subj)
-                else_ok = vt.ckey(x.get('e')) == sk
-                then_ok = any(vt.ckey(h.get('hole')) == sk for y in vt.walk(vt.unvar(x.get('t'))) if y.get('k') == 'fmt' for h in y.get('parts', []) if isinstance(h, dict) and 'hole' in h)
-                be = f['file'].split('/')[-1].replace('.rs', '')
-                rep.check(else_ok and then_ok, 'B6', f"{be}:{f['name']}:digit-guard-subject", 'the tested string is the emitted string', f"{be}: {f['qual']} tests `{vt.show(subj)[:60]}` for a leading digit but emits `{vt.show(x.get('e'))[:60]}` (prefixed form: `{vt.show(x.get('t'))[:50]}`) — the guard does not protect the printed identifier: a name whose *printed* form starts with a digit is emitted as is and the target file does not parse", {'file': f['file'], 'line': st['line']})
+    guarded_helpers = {}
+    for be, (_st, file) in emit.BACKENDS.items():
+        for f in [g for g in inline.file_views(ctx, file)]:
+            seen = set()
+            trees = [(st['fmt'], st['line']) for st in f['sites']]
+            if not f['sites']:
+                trees += [(f.get('tail'), f['line'])] + [(l_.get('v'), l_.get('line', f['line'])) for l_ in f.get('lets', [])]
+            for tree, line in trees:
+                for x in vt.walk(tree):
+                    if x.get('k') != 'cond' or 'is_ascii_digit' not in json.dumps(x.get('c'))[:4000]:
+                        continue
+                    k = vt.ckey(x)
+                    if k in seen:
+                        continue
+                    seen.add(k)
+                    subj = None
+                    for y in vt.walk(vt.unvar(x.get('c'))):
+                        if y.get('k') == 'call' and y.get('f') in ('chars', 'starts_with', 'bytes', 'as_bytes') and y.get('recv') is not None:
+                            subj = y['recv']
+                            break
+                    if subj is None:
+                        continue
+                    n += 1
+                    sk = vt.ckey(subj)
+                    else_ok = vt.ckey(x.get('e')) == sk
+                    then_ok = any(vt.ckey(h.get('hole')) == sk for y in vt.walk(vt.unvar(x.get('t'))) if y.get('k') == 'fmt' for h in y.get('parts', []) if isinstance(h, dict) and 'hole' in h)
+                    ok = else_ok and then_ok
+                    if not f['sites']:
+                        guarded_helpers[f['name'].split('::')[-1]] = ok
+                    rep.check(ok, 'B6', f"{be}:{f['name']}:digit-guard-subject", 'the tested string is the emitted string', f"{be}: {f['qual']} tests `{vt.show(subj)[:60]}` for a leading digit but emits `{vt.show(x.get('e'))[:60]}` (prefixed form: `{vt.show(x.get('t'))[:50]}`) — the guard does not protect the printed identifier: a name whose *printed* form starts with a digit is emitted as is and the target file does not parse", {'file': f['file'], 'line': line})
     rep.floor('B6', 'leading-digit guards', n, 3)
+    # (ii) coverage of the declaration sites
+    decl = re.compile(r'(\bcase |\bobject |\bdata class |\bcase class |\bcase object |\bclass )_?$')
+    nd = 0
+    for be, (_st, file) in emit.BACKENDS.items():
+        fns = [inline.view(ctx, g) for g in ctx.astq['functions'] if g['file'].endswith(file)]
+        for f in fns:
+            env = emit.caller_env_deep(fns, f)
+            for s in f['sites']:
+                alts = list(emit.site_alternatives_c(T, s, env))
+                cands = []
+                for conds, seq in alts:
+                    for ix, c in enumerate(seq):
+                        if c[0] != 'atom' or not c[1].startswith('RustEnumVariantShared.id.original') or ix == 0 or seq[ix - 1][0] not in ('lit', 'lit*'):
+                            continue
+                        if not decl.search(seq[ix - 1][1]):
+                            continue
+                        strip = [v for v in c[2] if v in STRIPPING or v in guarded_helpers]
+                        if not strip:
+                            continue
+                        cands.append((seq[ix - 1][1], c, conds))
+                if not cands:
+                    continue
+                nd += 1
+                via = cands[0][1][2]
+                by_helper = any(guarded_helpers.get(v) for v in via)
+                inline_guard = any(lit.endswith('_') for lit, c, conds in cands) and any(not lit.endswith('_') for lit, c, conds in cands) and any('is_ascii_digit' in json.dumps(conds, default=str) for lit, c, conds in cands)
+                rep.check(by_helper or inline_guard, 'B6', f"{be}:{f['name']}:variant-declaration-guarded:{decl.search(cands[0][0]).group(1).strip()}", 'declared variant identifier is digit-guarded', f"{be}: {f['qual']} declares the variant identifier `{emit.seq_str([cands[0][1]])[:70]}` after `{cands[0][0][-14:]}` without a leading-digit guard: the conversion drops leading underscores, so a variant such as `_1A` is declared as `1a` / `1A`, which is not an identifier", {'file': f['file'], 'line': s['line']})
+    rep.floor('B6', 'variant identifier declarations through an underscore-stripping conversion', nd, 4)
+
+
+def b7(ctx, rep, T):
+    """B7: a serde tag / content key is arbitrary JSON-key text (`tag = "my-type"`).  Wherever a backend writes it outside a
+    string literal — as a property name, a field, a `case`, a constructor parameter — it must first pass a transform that makes
+    it an identifier of the target language (quote-if-needed in TypeScript, a dash-removing replace, ...); otherwise a key that
+    is not an identifier yields a file that does not parse.  Transform summaries are derived from the helper bodies."""
+    from .. import transforms
+    n = 0
+    for be, (struct, file) in emit.BACKENDS.items():
+        fns = [inline.view(ctx, g) for g in ctx.astq['functions'] if g['file'].endswith(file)]
+        bad = {}
+        for f in fns:
+            env = emit.caller_env_deep(fns, f)
+            for s in f['sites']:
+                for conds, seq in emit.site_alternatives_c(T, s, env):
+                    for ix, c in enumerate(seq):
+                        if c[0] != 'atom' or not re.search(r'\b(tag_key|content_key)$', c[1]):
+                            continue
+                        facet = 'tag' if c[1].endswith('tag_key') else 'content'
+                        left = seq[ix - 1] if ix > 0 else None
+                        right = seq[ix + 1] if ix + 1 < len(seq) else None
+                        in_string = bool(left and right and left[0] in ('lit', 'lit*') and right[0] in ('lit', 'lit*') and left[1].endswith('"') and right[1].startswith('"'))
+                        n += 1
+                        if in_string:
+                            continue
+                        safe = False
+                        for v in c[2]:
+                            sm = transforms.summarize(ctx, v)
+                            if sm['kind'] == 'quote-select' or (sm['kind'] == 'replace' and '-' in (sm.get('lossy') or ())):
+                                safe = True
+                        if not safe:
+                            bad.setdefault(facet, (f, s, seq, ix))
+        for facet, (f, s, seq, ix) in sorted(bad.items()):
+            rep.fail('B7', f'{be}:{facet}-key-as-identifier', f"{be}: {f['qual']} writes the serde {facet} key as bare target-language text (`{emit.seq_str(seq[max(0, ix - 1):ix + 2])[:80]}`, transforms: {list(seq[ix][2]) or 'none'}): a key that is not an identifier (`#[serde(tag = \"my-type\", content = \"the-content\")]`) produces a declaration that does not parse", {'file': f['file'], 'line': s['line']})
+        for facet in ('tag', 'content'):
+            if facet not in bad:
+                rep.ok('B7', f'{be}:{facet}-key-as-identifier', 'key text outside string literals is made an identifier first (or never used there)')
+    rep.floor('B7', 'template positions fed by the serde tag/content key', n, 20)
 
 
 def b3(ctx, rep, T):
